@@ -686,7 +686,8 @@ func TestCheck(t *testing.T) {
 		// the transport jobs come last and take the places of the HTTP jobs as these finish; their own budget runs from
 		// their start, but none runs past the end of the HTTP part
 		os.Setenv(xportEndEnv, fmt.Sprint(time.Now().Add(budget+10*time.Second).UnixNano()))
-		r.RunJobs(njobs+len(xjobs(backends)), 30, budget+3*time.Minute)
+		// (thorough: the HTTP jobs use their whole budget, so all jobs start together)
+		r.RunJobs(njobs+len(xjobs(backends)), runner.Pick(r, 30, 30+len(xjobs(backends))), budget+3*time.Minute)
 	}
 	schedPart(r, t)
 	pullDuplicates(r, t)
